@@ -24,7 +24,213 @@ func runLOC(c *Ctx) (obls []Obl) {
 	locSearchBounds(c, a)
 	locTestMain(c, a)
 	locConsts(c, a)
+	locAll(c, a)
+	locOrder(c, a)
+	locProbe(c, a)
 	return
+}
+
+// locOrder: roots are tried innermost first: the keys come in descending
+// lexical order (a nested root has its parent as a proper prefix, so it is
+// lexically larger).
+func locOrder(c *Ctx, a *flAgg) {
+	fn := c.MustFunc(a.obls, "LOC-order", "stack", "", "sortedKeys")
+	if fn == nil {
+		return
+	}
+	// accepted forms: sort.Strings + in-place reversal; sort.Sort(sort.Reverse(sort.StringSlice(x)))
+	sorted, reversed, other := false, false, ""
+	for _, b := range fn.Blocks {
+		for _, in := range b.Instrs {
+			call, ok := in.(*ssa.Call)
+			if !ok {
+				continue
+			}
+			cal := call.Call.StaticCallee()
+			if cal == nil || calleePkg(cal) != "sort" {
+				continue
+			}
+			switch cal.Name() {
+			case "Strings":
+				sorted = true
+			case "Reverse":
+				reversed = true
+			case "Sort", "Stable":
+				// with Reverse(StringSlice)
+				sorted = true
+			default:
+				other = "sort." + cal.Name()
+			}
+		}
+	}
+	// in-place reversal loop: two cursors i up, j down, swap out[i], out[j]
+	for _, l := range naturalLoops(fn) {
+		up, down, swaps := false, false, 0
+		for _, in := range l.Header.Instrs {
+			phi, ok := in.(*ssa.Phi)
+			if !ok {
+				break
+			}
+			for i, e := range phi.Edges {
+				if !l.Body[phi.Block().Preds[i]] {
+					continue
+				}
+				if bo, ok := e.(*ssa.BinOp); ok && bo.X == ssa.Value(phi) {
+					if k, isC := bnConst(bo.Y); isC && k == 1 {
+						if bo.Op == token.ADD {
+							up = true
+						} else if bo.Op == token.SUB {
+							down = true
+						}
+					}
+				}
+			}
+		}
+		for b := range l.Body {
+			for _, in := range b.Instrs {
+				if st, ok := in.(*ssa.Store); ok {
+					if _, isIdx := st.Addr.(*ssa.IndexAddr); isIdx {
+						swaps++
+					}
+				}
+			}
+		}
+		if up && down && swaps == 2 {
+			reversed = true
+		}
+	}
+	if sorted && reversed && other == "" {
+		a.ok("LOC-order", "sortedKeys", "roots are tried in descending lexical order: a root nested in another one is tried before its parent", fn.Pos())
+	} else {
+		a.bad("LOC-order", "sortedKeys", fmt.Sprintf("the root order is not 'sorted lexically, then reversed' (sorted=%v reversed=%v other=%s): a parent root can be tried before a root nested in it, so frames of the nested module get the parent's import path and relative path", sorted, reversed, other), fn.Pos())
+	}
+}
+
+// locProbe: for every file not yet explained, every local GOPATH is probed
+// (src first, then pkg/mod); nothing but a hit ends the probing.
+func locProbe(c *Ctx, a *flAgg) {
+	fn := c.MustFunc(a.obls, "LOC-probe", "stack", "Snapshot", "findRoots")
+	if fn == nil {
+		return
+	}
+	exprHome = fn.Pkg.Pkg
+	var inner *loopInfo
+	for _, l := range naturalLoops(fn) {
+		// the loop whose body calls isRootedIn twice
+		n := 0
+		for b := range l.Body {
+			for _, in := range b.Instrs {
+				if call, ok := in.(*ssa.Call); ok {
+					if cal := call.Call.StaticCallee(); cal != nil && cal.Name() == "isRootedIn" {
+						n++
+					}
+				}
+			}
+		}
+		if n == 2 {
+			inner = l
+		}
+	}
+	if inner == nil {
+		a.und("LOC-probe", "findRoots/gopath-loop", "the loop probing the local GOPATHs was not found", fn.Pos())
+		return
+	}
+	seg := &SPE{Fn: fn, Start: inner.Header, MaxVisits: 2}
+	seg.Stop = func(from, to *ssa.BasicBlock) bool {
+		return (to == inner.Header && inner.Body[from]) || (inner.Body[from] && !inner.Body[to])
+	}
+	seg.Explore()
+	ok, n := true, 0
+	why := ""
+	for _, p := range seg.Paths {
+		if !(p.Term == "stop" && p.End == inner.Header) {
+			continue
+		}
+		n++
+		var probes []string
+		for _, ev := range p.Events {
+			if ev.Kind == EvCall && ev.Val.calleeIs(stackPkg, "isRootedIn") {
+				probes = append(probes, ev.Val.Args[1].String())
+			}
+		}
+		if len(probes) != 2 || !strings.HasSuffix(probes[0], `+ "/src")`) || !strings.HasSuffix(probes[1], `+ "/pkg/mod")`) {
+			ok = false
+			why = fmt.Sprintf("an iteration that continues with the next GOPATH made the probes %v instead of <gopath>/src then <gopath>/pkg/mod (%s)", probes, litsString(p))
+		}
+	}
+	if ok && n > 0 {
+		a.ok("LOC-probe", "findRoots/gopath-loop", "every local GOPATH is probed for src and pkg/mod before the next one is tried; only a hit ends the search", fn.Pos())
+	} else {
+		a.bad("LOC-probe", "findRoots/gopath-loop", "a local GOPATH can be skipped without being probed: "+why+": a second remote root that resolves into an already mapped local GOPATH is never detected", fn.Pos())
+	}
+}
+
+// locAll: the location update reaches every goroutine, both stacks and every
+// frame unconditionally (no short-circuit that skips the rest after a miss).
+func locAll(c *Ctx, a *flAgg) {
+	for _, t := range []struct{ recv, name, callee string }{
+		{"Snapshot", "guessPaths", "updateLocations"},
+		{"Stack", "updateLocations", "updateLocations"},
+	} {
+		fn := c.MustFunc(a.obls, "LOC-all", "stack", t.recv, t.name)
+		if fn == nil {
+			continue
+		}
+		exprHome = fn.Pkg.Pkg
+		loops := outermostLoops(naturalLoops(fn))
+		if len(loops) != 1 {
+			a.und("LOC-all", t.recv+"."+t.name, "element loop not found", fn.Pos())
+			continue
+		}
+		l := loops[0]
+		seg := &SPE{Fn: fn, Start: l.Header, MaxVisits: 2}
+		seg.Stop = func(from, to *ssa.BasicBlock) bool { return (to == l.Header && l.Body[from]) || (l.Body[from] && !l.Body[to]) }
+		seg.Explore()
+		ok, n := true, 0
+		for _, p := range seg.Paths {
+			if !(p.Term == "stop" && p.End == l.Header) {
+				continue
+			}
+			n++
+			calls := 0
+			for _, ev := range p.Events {
+				if ev.Kind == EvCall && ev.Val.Op == OpCall && ev.Val.Fn != nil && ev.Val.Fn.Name() == t.callee {
+					calls++
+				}
+			}
+			if calls != 1 {
+				ok = false
+			}
+		}
+		if ok && n > 0 {
+			a.ok("LOC-all", t.recv+"."+t.name, "every element is updated exactly once per iteration, whatever the result for the previous ones", fn.Pos())
+		} else {
+			a.bad("LOC-all", t.recv+"."+t.name, "an iteration can skip the location update of its element (short-circuit on an earlier miss): complete goroutines lose their local paths and classes because of an unrelated unresolved frame", fn.Pos())
+		}
+	}
+	// Signature.updateLocations: both stacks, unconditionally
+	if fn := c.MustFunc(a.obls, "LOC-all", "stack", "Signature", "updateLocations"); fn != nil {
+		exprHome = fn.Pkg.Pkg
+		x := &SPE{Fn: fn, MaxVisits: 2}
+		x.Explore()
+		ok := len(x.Paths) > 0
+		for _, p := range x.Paths {
+			n := 0
+			for _, ev := range p.Events {
+				if ev.Kind == EvCall && ev.Val.Op == OpCall && ev.Val.Fn != nil && ev.Val.Fn.Name() == "updateLocations" {
+					n++
+				}
+			}
+			if n != 2 {
+				ok = false
+			}
+		}
+		if ok {
+			a.ok("LOC-all", "Signature.updateLocations", "creator stack and stack are both updated on every path", fn.Pos())
+		} else {
+			a.bad("LOC-all", "Signature.updateLocations", "a path updates only one of the two stacks", fn.Pos())
+		}
+	}
 }
 
 func constStr(e *Expr) (string, bool) {
